@@ -15,8 +15,8 @@ out=seeded/RESULTS.txt
 [ $# -eq 0 ] && : > "$out"
 run() { # id prop patch expect(caught|missed|quiet) only
   local id=$1 prop=$2 patch=$3 expect=$4 only=$5
-  git -C "$wt" checkout -q -- . && git -C "$wt" clean -qfd
-  if ! git -C "$wt" apply "$patch" 2>/dev/null && ! git -C "$wt" apply --3way "$patch" 2>/dev/null; then
+  git -C "$wt" reset -q --hard HEAD && git -C "$wt" clean -qfd
+  if ! git -C "$wt" apply "$patch" 2>/dev/null; then
     echo "$id $prop does-not-apply (superseded by a later fix) expect=$expect" | tee -a "$out"; return
   fi
   local args=(-repo "$wt" -prop "$prop" -no-evidence)
@@ -56,11 +56,13 @@ P
 )
   run "$id" "$prop" "/verif/$d/patch.diff" "$expect" "$only"
 done
-if [ ${#ids[@]} -eq 0 ]; then
+if [ ${#ids[@]} -eq 0 ] || [[ " ${ids[*]} " =~ " benign " ]]; then
   for b in seeded/benign/*.diff; do
     for prop in $(grep -o 'C[0-9][0-9]' <<<"$(head -c 0 /dev/null)$(basename "$b")" | sort -u); do :; done
     case "$(basename "$b")" in
       b5_*) props="C02 C05 C07" ;;
+      b6_*) props="C05 C08" ;;
+      b7_*) props="C16 C20 C04" ;;
       *) props=$(python3 - "$b" <<'P'
 import sys,re
 t=open(sys.argv[1]).read()
